@@ -12,10 +12,10 @@ mkdir -p $OUT
 cd $WT || exit 2
 git checkout -q -- cobyqa
 git apply --check out/change$N.diff || { echo "diff does not apply"; exit 2; }
-timeout 120 /venv/bin/python out/demo$N.py > /tmp/seed_clean.log 2>&1; CLEAN=$?
+PYTHONPATH=$WT timeout 120 /venv/bin/python out/demo$N.py > /tmp/seed_clean.log 2>&1; CLEAN=$?
 git apply out/change$N.diff
-T=$(/venv/bin/python -m pytest -q -p no:cacheprovider -q cobyqa 2>&1 | tail -1)
-timeout 120 /venv/bin/python out/demo$N.py > /tmp/seed_mut.log 2>&1; MUT=$?
+T=$(PYTHONPATH=$WT /venv/bin/python -m pytest -q -p no:cacheprovider -q cobyqa 2>&1 | tail -1)
+PYTHONPATH=$WT timeout 120 /venv/bin/python out/demo$N.py > /tmp/seed_mut.log 2>&1; MUT=$?
 git checkout -q -- cobyqa
 echo "tests_with_change: $T"; echo "demo exit clean=$CLEAN with_change=$MUT"
 cp out/change$N.diff $OUT/patch.diff; cp out/demo$N.py $OUT/demo.py
